@@ -222,7 +222,12 @@ class AxisScope(object):
                     return {'sym:' + e.slice.id}
                 return set()
             if isinstance(e.slice, ast.Slice):
-                return self.tag(b, at, depth + 1)
+                # slice bounds are positions along the sliced collection's own direction
+                out = self.tag(b, at, depth + 1)
+                for bound in (e.slice.lower, e.slice.upper):
+                    if bound is not None:
+                        out = out | self.tag(bound, at, depth + 1)
+                return out
             # element of something tagged (spans[0][i] -> tag of spans[0]); index does not contribute its own axis
             return self.tag(b, at, depth + 1)
         if isinstance(e, ast.Name):
